@@ -867,7 +867,15 @@ class C20(Base):
         op = {"clean": "clean", "list": "list:", "list_all": "list_all:"}[m["mode"]]
         if op != "clean":
             op += "json" if m["json"] else "pretty"
-        return Case(label, [req(op, m["src"], m["ds"], m["de"], cfg)], dict(m, replay=True), key=json.dumps(m, sort_keys=True, ensure_ascii=False))
+        # the model of main(): flags only as --removal-marker-target-name, the config file as a file
+        mcfg = Cfg(tl=m["tl"], rm=m["rm"], now=m["now"], off=m["off"], targets=tuple(m["flags"]))
+        filehex = "-" if m["file"] is None else (hx("".join(x + "\n" for x in m["file"])) or "")
+        cli_req = req("cli", m["src"], m["ds"], m["de"], mcfg,
+                      extra=[filehex if filehex != "" else "", "1" if m["mode"] == "list" else "0",
+                             "1" if (m["mode"] == "list_all" or m.get("list_flag_both")) else "0", "1" if m["json"] else "0"])
+        c = Case(label, [req(op, m["src"], m["ds"], m["de"], cfg)], dict(m, replay=True), key=json.dumps(m, sort_keys=True, ensure_ascii=False))
+        c.meta["_cli_req"] = cli_req
+        return c
 
     def corpus_cases(self, name, body):
         return [self.mk_case({k: v for k, v in body.items() if k != "replay"}, name)]
@@ -953,6 +961,15 @@ class C20(Base):
         if k != "ok":
             return {"fail": "panic", "detail": v, "nontrivial": True, "tags": ["panic"]}
         lib = unhx(v)
+        # the Lean model of main() on the same options
+        mr = proto.run_model([case.meta["_cli_req"]])[0]
+        mk, mv = parse_reply(mr)
+        if mk != "ok" or ":" not in mv:
+            return {"fail": "C20-model", "detail": "Cli.run model reply %r" % mr, "nontrivial": True, "tags": ["model"]}
+        mexit, mout = mv.split(":", 1)
+        if mexit != "0" or unhx(mout) != lib:
+            return {"fail": "C20-model", "detail": "Cli.run (model) exit %s output %r differs from the library result %r" % (mexit, unhx(mout), lib),
+                    "nontrivial": True, "tags": ["model"]}
         # --list-json without a list flag cleans
         if m["mode"] == "clean" and m["json"]:
             pass
